@@ -270,6 +270,8 @@ func runC09(c *Ctx) {
 	c.rule("A5", "ReadFileContent: 'too large' refusal precedes the read when limits apply and Stat succeeded; the read is bounded by the same maximum", 1)
 	c.rule("A7", "after a context-carrying step has failed, no further mutating effect happens unless the failure was first found not to be a cancellation/timeout, or the context is consulted again", 1)
 	c.rule("A8", "a copy of n bytes: the count n reaches io.CopyN (which reports a short source as EOF), or the number of bytes transferred is compared with n before success is reported", 1)
+	c.rule("A11", "ReadFileContent: the 'too large' refusal is also decided on what was actually read (the size Stat() reports cannot always be trusted)", 1)
+	c.rule("A12", "entry gate, kinds: no error other than that of a closed resource is returned before the context has been consulted", 45)
 	c.rule("A9", "a bounded read: the raw source is read only through io.LimitReader(src, max), except on the side of the branch where max is negative (no bound requested)", 1)
 	c.rule("A10", "in the context-carrying functions of package filesystem no byte is moved by a direct Read/Write on a handle or by a bare io.Copy/io.ReadAll: transfers go through the safeio helpers or a contextual wrapper", 3)
 	c.rule("A6", "no context.Background()/TODO() inside a context-carrying function outside deferred clean-up", 60)
@@ -324,6 +326,57 @@ func runC09(c *Ctx) {
 		}
 	}
 	c.Extra["scope_X"] = nX
+
+	// ---- A12 ----------------------------------------------------------------
+	// "fails with the 'cancelled' or 'timeout' kind when its context is already done at the call": no other failure is
+	// reported before the context has been consulted (a closed resource excepted: nothing at all is served then).
+	for _, f := range s.fns {
+		if f.Object() == nil || !f.Object().Exported() || !(inPkg(fsPkgRel)(f) || inPkg("safeio")(f)) {
+			continue
+		}
+		res := f.Signature.Results()
+		if res.Len() == 0 || !isErrorType(res.At(res.Len()-1).Type()) {
+			continue
+		}
+		if strings.HasSuffix(c.Fset.Position(f.Pos()).Filename, "lockfile.go") {
+			continue
+		}
+		isClosedCheck := func(v ssa.Value) bool {
+			for _, l := range sources(v, deriveOpts{}) {
+				if cl, ok := l.(*ssa.Call); ok && strings.HasSuffix(calleeFull(&cl.Call), "checkWhetherUnderlyingResourceIsClosed") {
+					return true
+				}
+			}
+			return false
+		}
+		target := func(in ssa.Instruction) bool {
+			r, ok := in.(*ssa.Return)
+			if !ok || len(r.Results) == 0 || !isErrorExit(f, r) {
+				return false
+			}
+			// the error of the closed-resource check
+			if isClosedCheck(r.Results[len(r.Results)-1]) {
+				only := true
+				for _, l := range sources(r.Results[len(r.Results)-1], deriveOpts{}) {
+					if cl, ok := l.(*ssa.Call); !ok || !strings.HasSuffix(calleeFull(&cl.Call), "checkWhetherUnderlyingResourceIsClosed") {
+						if !isNilConst(l) {
+							only = false
+						}
+					}
+				}
+				if only {
+					return false
+				}
+			}
+			return true
+		}
+		key := fname(f) + "/kind-when-done"
+		if bad := pathPruned(f, nil, s.isGate, target, nil); bad != nil {
+			c.violate("A12", key, c.ipos(bad), "this error return can be reached from the entry of "+f.Name()+" before its context has been consulted: with a context that is already done the call fails with another kind than 'cancelled' / 'timeout'")
+		} else {
+			c.ok("A12", key, c.pos(f.Pos()), "no failure other than a closed resource is reported before the context has been consulted")
+		}
+	}
 
 	s.afterFailure()
 	s.loops()
@@ -724,8 +777,24 @@ func (s *c09State) sizeRefusal() {
 		}
 		return false
 	}
-	var cmp *ssa.If
-	exceeded := 0
+	var cmp, post *ssa.If
+	exceeded, postExceeded := 0, 0
+	isStatSize := func(v ssa.Value) bool {
+		for _, l := range sources(v, deriveOpts{}) {
+			if cl, ok := l.(*ssa.Call); ok && cl.Call.IsInvoke() && cl.Call.Method.Name() == "Size" {
+				return true
+			}
+		}
+		return false
+	}
+	isReadLen := func(v ssa.Value) bool {
+		for _, l := range sources(v, deriveOpts{through: func(n string) bool { return n == "builtin.len" }}) {
+			if ex, ok := l.(*ssa.Extract); ok && read != nil && ex.Tuple == ssa.Value(read) && ex.Index == 0 {
+				return true
+			}
+		}
+		return false
+	}
 	for _, b := range f.Blocks {
 		ifi, ok := b.Instrs[len(b.Instrs)-1].(*ssa.If)
 		if !ok {
@@ -736,11 +805,21 @@ func (s *c09State) sizeRefusal() {
 		if !ok {
 			continue
 		}
+		var other ssa.Value
 		if (bo.Op == token.GTR || bo.Op == token.GEQ) && isMax(bo.Y) {
-			cmp, exceeded = ifi, ts
+			other = bo.X
 		}
 		if (bo.Op == token.LSS || bo.Op == token.LEQ) && isMax(bo.X) {
+			other = bo.Y
+		}
+		if other == nil {
+			continue
+		}
+		switch {
+		case isStatSize(other):
 			cmp, exceeded = ifi, ts
+		case isReadLen(other):
+			post, postExceeded = ifi, ts
 		}
 	}
 	if cmp == nil {
@@ -793,6 +872,33 @@ func (s *c09State) sizeRefusal() {
 		good, why = false, "the bound handed to ReadAtMost is not limits.GetMaxFileSize()"
 	}
 	c.check(good, "A5", key, c.ipos(read), "size compared with GetMaxFileSize() ('too large') before a read bounded by the same value", why)
+	// A11: Stat() does not know the size of everything (pseudo files, devices, files being appended to): whether the source
+	// was bigger than allowed is also decided on what was actually read — the read asks for more than the maximum (a bound
+	// computed from it, not the maximum itself) and a content longer than the maximum is refused.
+	key11 := fname(f) + "/refusal-on-what-was-read"
+	good11, why11 := true, ""
+	switch {
+	case post == nil:
+		good11, why11 = false, "the length of what was read is never compared with limits.GetMaxFileSize(): when Stat() under-reports the size (/proc files, devices, a file being appended to) a source bigger than the limit yields its first bytes and a nil error instead of 'too large'"
+	case resolveValue(read.Call.Args[2]) == resolveValue(maxValueOf(f, isMax)):
+		good11, why11 = false, "the read is bounded by the maximum itself: a source of exactly the maximum size and a bigger one read the same, so the comparison after the read can never refuse"
+	default:
+		if ok, w := c.errorKindOnEdge(f, post.Block().Succs[postExceeded], "ErrTooLarge"); !ok {
+			good11, why11 = false, w
+		}
+	}
+	c.check(good11, "A11", key11, c.ipos(read), "a content longer than GetMaxFileSize() is refused ('too large') after a read that asks for more than the maximum", why11)
+}
+
+// maxValueOf: the value holding limits.GetMaxFileSize() as merged with the "no limit" default (the phi or the call).
+func maxValueOf(f *ssa.Function, isMax func(ssa.Value) bool) ssa.Value {
+	var out ssa.Value
+	allInstrs(f, func(in ssa.Instruction) {
+		if ph, ok := in.(*ssa.Phi); ok && isMax(ph) && out == nil {
+			out = ph
+		}
+	})
+	return out
 }
 
 // ---- A6 ---------------------------------------------------------------------
